@@ -19,6 +19,7 @@ type oracleFn func(cr *caseRun) [][2]string
 func pipelineCheck(r *report.Report, prop string, seed int64, n int, opt gen.Options, mk func(i int) *gen.Case,
 	nontrivial func(cr *caseRun) bool, oracle oracleFn) error {
 	seenSig := map[string]bool{}
+	corpusRun(r, prop)
 	return runStream(seed, n, opt, mk, func(cr *caseRun) {
 		key := fmt.Sprintf("%d/%d/%s", cr.C.Seed, cr.C.Index, tool_hash(cr.C.Files[cr.C.SetupPath], cr.C.Files["pk/types.go"]))
 		r.Eval(key, nontrivial == nil || nontrivial(cr))
